@@ -238,13 +238,20 @@ type rigOpts struct {
 	ServerSeq          uint32
 	Lifetime           uint32
 	NoOpen             bool
+	NoLoop             bool // do not run the server channel's receive loop
+	ReqTimeout         time.Duration
 }
 
 func openRig(o rigOpts) (*rig, error) {
 	if o.BufSize == 0 {
 		o.BufSize = 8192
 	}
-	ack := &uacp.Acknowledge{ReceiveBufSize: o.BufSize, SendBufSize: o.BufSize, MaxChunkCount: o.MaxChunks, MaxMessageSize: o.MaxMsgSize}
+	if o.ReqTimeout == 0 {
+		o.ReqTimeout = 20 * time.Second
+	}
+	// both ends adopt this acknowledge: chunks are written up to BufSize, frames of twice that size
+	// are still read (room for the adversary's extensions without touching the uacp limits)
+	ack := &uacp.Acknowledge{ReceiveBufSize: 2 * o.BufSize, SendBufSize: o.BufSize, MaxChunkCount: o.MaxChunks, MaxMessageSize: o.MaxMsgSize}
 	if ack.MaxChunkCount == 0 {
 		ack.MaxChunkCount = 512
 	}
@@ -255,7 +262,7 @@ func openRig(o rigOpts) (*rig, error) {
 	var err error
 	for try := 0; try < 3; try++ {
 		p, err = chanpair.Open(chanpair.Opts{Policy: o.Policy, Mode: o.Mode, ServerACK: ack, Tap: o.Tap, NoServerLoop: true,
-			ServerSeq: o.ServerSeq, Lifetime: o.Lifetime, NoOpen: true, RequestTimeout: 20 * time.Second})
+			ServerSeq: o.ServerSeq, Lifetime: o.Lifetime, NoOpen: true, RequestTimeout: o.ReqTimeout})
 		if err == nil {
 			break
 		}
@@ -280,6 +287,9 @@ func openRig(o rigOpts) (*rig, error) {
 	g.stopLoop = cancel
 	go func() {
 		defer close(g.loopDone)
+		if o.NoLoop {
+			return
+		}
 		for {
 			msg := p.Server.Receive(ctx)
 			if o.Side == "server" {
@@ -302,6 +312,23 @@ func openRig(o rigOpts) (*rig, error) {
 			}
 		}
 	}()
+	if o.Side == "client" {
+		// the dispatcher leaves without a disp.pop event when Receive returns EOF; it reports the
+		// EOF on the error channel after all earlier events
+		go func() {
+			for {
+				select {
+				case err := <-p.CErr:
+					if err == io.EOF {
+						g.r.add(Ev{Ev: "ret", Err: "EOF", EOF: true})
+						return
+					}
+				case <-ctx.Done():
+					return
+				}
+			}
+		}()
+	}
 	if !o.NoOpen {
 		octx, ocancel := context.WithTimeout(context.Background(), 20*time.Second)
 		err := p.Client.Open(octx)
@@ -309,6 +336,17 @@ func openRig(o rigOpts) (*rig, error) {
 		if err != nil {
 			g.close()
 			return nil, fmt.Errorf("open: %w", err)
+		}
+		// the server installs its instance after it has written the OPN response
+		for i := 0; i < 5000; i++ {
+			if _, _, _, _, ok := uasc.VerifActive(p.Server); ok {
+				break
+			}
+			time.Sleep(time.Millisecond)
+		}
+		if _, _, _, _, ok := uasc.VerifActive(p.Server); !ok {
+			g.close()
+			return nil, fmt.Errorf("server channel has no active instance after the handshake")
 		}
 	}
 	return g, nil
